@@ -144,7 +144,7 @@ def extra_ops(rng):
     return ops
 
 
-N_ORIGINS, N_TRAMPS = 5, 3
+N_ORIGINS, N_TRAMPS, N_RAW = 5, 3, 4
 
 
 def site_ops(tier, rng):
@@ -154,16 +154,25 @@ def site_ops(tier, rng):
         ops.append(f'site patch.gen {rng.below(N_ORIGINS)} {x:#x} {rng.next() & 0xffffffffff:#x}')
     for oi in range(N_ORIGINS):
         ops.append(f'site patch.apply {oi} {rng.below(7)}')
-    # the same origin through placeholder A, B, A again; a second origin through the same placeholders; every origin once
+    # the same origin through placeholder A, B, A again; a second origin through the same placeholders; every origin once;
+    # hand-assembled origins in an executable page (r<zoo>p<int3 padding>:n = placeholder in the same page): functions barely
+    # longer than the moved head, relocated copy longer than / as long as / shorter than the whole function
     ops.append('site patch.jumpback o0:t0 o0:t1 o0:t0 o1:t0 o1:t1 o3:t2 o3:t0 o4:t1 o4:t2 o2:t2 o0:t2')
+    ops.append('site patch.jumpback r0p1:n r0p2:n r0p5:n r1p1:n r1p4:n r2p3:n r3p2:n r1p1:n')
     for _ in range(2 if tier == 'quick' else 12):
         steps = []
         o = rng.below(N_ORIGINS)
         for _ in range(6 + rng.below(4)):
             if rng.below(3) == 0:
                 o = rng.below(N_ORIGINS)
-            steps.append(f'o{o}:t{rng.below(N_TRAMPS)}')
+            if rng.below(4) == 0:
+                steps.append(f'r{rng.below(N_RAW)}p{1 + rng.below(6)}:n')
+            else:
+                steps.append(f'o{o}:t{rng.below(N_TRAMPS)}')
         ops.append('site patch.jumpback ' + ' '.join(steps))
+    # origin in an mmap'ed page, placeholder a Go function in the text segment: more than 2 GiB apart, the absolute form of
+    # the jump back is really emitted and really executed (alone in its history: on the unrepaired code this kills the child)
+    ops.append(f'site patch.jumpback r1p{1 + rng.below(4)}:t{rng.below(N_TRAMPS)}')
     for k in range(3 if tier == 'quick' else 12):
         ops.append(f'site iface.caller {k}')
         ops.append(f'site iface.callerctx {k}')
@@ -262,39 +271,44 @@ def entry_check(kv, pre=''):
 
 
 def site_oracle(op, obs):
-    """Property oracle for the call-site lane.  Returns (why | None, derived [(emit line, impl line)], stats dict)."""
+    """Property oracle for the call-site lane.  Returns (why | None, finding key | None, derived [(emit line, impl line)], stats)."""
+    why, key, derived, st = _site_oracle(op, obs)
+    return why, (key if why else None), derived, st
+
+
+def _site_oracle(op, obs):
     tk = op.split()
-    derived, st = [], {'steps': 0, 'refused': 0, 'widened': 0}
+    derived, st = [], {'steps': 0, 'refused': 0, 'widened': 0, 'far': 0}
     if obs is None:
-        return 'no observation', derived, st
+        return 'no observation', None, derived, st
     if tk[1] in ('patch.gen', 'patch.apply'):
         if obs.startswith('err:'):
-            return f'refused: {obs}', derived, st
+            return f'refused: {obs}', None, derived, st
         kv = kvs(obs)
         pre = '' if tk[1] == 'patch.gen' else 'e'
         if 'crashed:' in obs or pre + 'bytes' not in kv:
-            return f'incomplete observation: {obs[-120:]}', derived, st
+            return f'incomplete observation: {obs[-120:]}', None, derived, st
         derived.append((f'emit amd64.entry {kv["origin"]} {kv["arg"]}', f'bytes={kv[pre + "bytes"]} rip={kv.get(pre + "rip")} rdx={kv.get(pre + "rdx")}'))
         why = entry_check(kv, pre)
         if why:
-            return why, derived, st
+            return why, None, derived, st
         if tk[1] == 'patch.gen':
             if hx(kv['arg']) != int(tk[3], 16):
-                return 'probe echo mismatch', derived, st
-            return None, derived, st
+                return 'probe echo mismatch', None, derived, st
+            return None, None, derived, st
         if kv['deref'] != kv['code']:
-            return f'[replacementInAddr]={kv["deref"]} is not the code of the replacement {kv["code"]}', derived, st
+            return f'[replacementInAddr]={kv["deref"]} is not the code of the replacement {kv["code"]}', None, derived, st
         if kv.get('call') != kv.get('want') or kv.get('call') is None:
-            return f'calling the patched function gave {kv.get("call")}, the replacement gives {kv.get("want")}', derived, st
+            return f'calling the patched function gave {kv.get("call")}, the replacement gives {kv.get("want")}', None, derived, st
         if kv.get('restored') != 'true' or kv.get('after') != kv.get('wantafter'):
-            return f'after unpatch: restored={kv.get("restored")} result={kv.get("after")} wanted {kv.get("wantafter")}', derived, st
-        return None, derived, st
+            return f'after unpatch: restored={kv.get("restored")} result={kv.get("after")} wanted {kv.get("wantafter")}', None, derived, st
+        return None, None, derived, st
     if tk[1] == 'patch.jumpback':
         segs, tl = obs.split(' | '), []
         while segs and (segs[-1] == 'running' or segs[-1].startswith('crashed:')):
             tl.insert(0, segs.pop())
         tail = ' '.join(tl) if tl else None
-        why = None
+        why = fkey = fwhy = None
         for si, seg in enumerate(segs):
             kv = kvs(seg)
             if 'refused:' in seg:
@@ -315,6 +329,8 @@ def site_oracle(op, obs):
             if w is None:
                 f_, t_ = (tramp + off) & M64, (origin + n) & M64
                 derived.append((f'emit amd64.origin {f_:#x} {t_:#x}', f'bytes={kv["bytes"]} rip={kv.get("rip")} rdx={kv.get("rdx")}'))
+                st['widened'] += off > n
+                st['far'] += abs(sdisp(f_, t_)) >= 1 << 31
                 if 'rip' not in kv:
                     w = f'the jump back at placeholder+{off} is undecodable ({kv["bytes"]})'
                 elif n < len(kv.get('ebytes', '')) // 2:
@@ -324,8 +340,13 @@ def site_oracle(op, obs):
                     if w:
                         w = (f'jump back of origin {origin:#x} in placeholder {tramp:#x}+{off}: {w} = origin+{n}, the first origin '
                              f'instruction that was not relocated ({kv["k"]} instructions copied)')
-                if off > n:
-                    st['widened'] += 1
+                    if w and key:
+                        # the known shape; that the call through the placeholder then dies is its consequence
+                        fkey, fwhy = key, fwhy or f'step {si} ({tk[2 + si] if 2 + si < len(tk) else "?"}): {w}' + (
+                            '' if 'call' in kv else '; calling through the placeholder killed the process')
+                        w = None
+                        if 'call' not in kv:
+                            continue
             if w is None and 'call' not in kv:
                 w = f'calling through the placeholder {tramp:#x} did not return (process died)'
             if w is None and (kv['call'] != kv['want'] or kv['mock'] != kv['wantmock'] or kv.get('after') != kv['want']):
@@ -333,32 +354,34 @@ def site_oracle(op, obs):
                      f'{kv["wantmock"]}); after unpatch {kv.get("after")}')
             if w and not why:
                 why = f'step {si} ({tk[2 + si] if 2 + si < len(tk) else "?"}): {w}'
-        if why is None and tail is not None:
+        if why is None and tail is not None and not (fkey and 'call' not in kvs(segs[-1] if segs else '')):
             why = f'history did not complete: {tail}'
-        if why is None and len(segs) != len(tk) - 2:
+        if why is None and tail is None and len(segs) != len(tk) - 2:
             why = f'{len(segs)} steps observed, {len(tk) - 2} requested'
-        return why, derived, st
+        if why is None and fkey:
+            return fwhy, fkey, derived, st
+        return why, None, derived, st
     if tk[1] in ('iface.caller', 'iface.callerctx'):
         if obs.startswith('err:'):
-            return f'refused: {obs}', derived, st
+            return f'refused: {obs}', None, derived, st
         kv = kvs(obs)
         if 'bytes' not in kv:
-            return f'incomplete observation: {obs[-120:]}', derived, st
+            return f'incomplete observation: {obs[-120:]}', None, derived, st
         arg = hx(kv['arg'])
         derived.append((f'emit amd64.stub {kv["stub"]} {kv["arg"]}', f'bytes={kv["bytes"]} rip={kv.get("rip")} rdx={kv.get("rdx")}'))
         if 'rip' not in kv:
-            return f'the stub at {kv["stub"]} is not the expected instruction sequence ({kv["bytes"]})', derived, st
+            return f'the stub at {kv["stub"]} is not the expected instruction sequence ({kv["bytes"]})', None, derived, st
         if hx(kv['rdx']) != arg or hx(kv['rip']) != (~arg) & M64:
             return (f'stub enters {kv["rip"]} with context rdx={kv["rdx"]}, wanted [p] with rdx=p={arg:#x} '
-                    f'(p = the {"ctx" if "to" in kv else "to"} pointer passed)'), derived, st
+                    f'(p = the {"ctx" if "to" in kv else "to"} pointer passed)'), None, derived, st
         if 'to' in kv and kv['deref'] != kv['to']:
-            return 'probe setup: [ctx] != to', derived, st
+            return 'probe setup: [ctx] != to', None, derived, st
         if len(kv['bytes']) // 2 > int(kv['slot']):
-            return f'stub of {len(kv["bytes"]) // 2} bytes does not fit its {kv["slot"]}-byte slot', derived, st
+            return f'stub of {len(kv["bytes"]) // 2} bytes does not fit its {kv["slot"]}-byte slot', None, derived, st
         if kv.get('call') is None or kv['call'] != kv.get('want'):
-            return f'calling through the stub gave {kv.get("call")}, the closure gives {kv.get("want")}', derived, st
-        return None, derived, st
-    return f'unknown site op {op}', derived, st
+            return f'calling through the stub gave {kv.get("call")}, the closure gives {kv.get("want")}', None, derived, st
+        return None, None, derived, st
+    return f'unknown site op {op}', None, derived, st
 
 
 # ------------------------------------------------------------------ building and running
@@ -500,6 +523,7 @@ def run_site(bins, ops, sc):
             if tries[i] >= 2:
                 obs[i] = ((partial or '').rstrip() + ' | ' if partial else '') + 'crashed:' + crash_class(rc, log)
                 rest = rest[1:]
+                flakes[:] = [f for f in flakes if f[0] != ops[i]]      # it reproduced: not a flake
             else:
                 flakes.append((ops[i], crash_class(rc, log)))
             pending = [i for i, _ in rest]
@@ -565,6 +589,26 @@ def arm64_origin_guard():
     return None
 
 
+def name_failed_theorems(proof):
+    """`lake build failed at Props/C15.lean:220` -> the names of the theorems that no longer check."""
+    errs = [(f, int(l)) for f, l in proof.get('build_errors', []) if f.endswith('Props/C15.lean')]
+    if not errs:
+        return
+    import re
+    decl = []
+    for no, line in enumerate(open(os.path.join(C.LEAN, 'GoomVerif', 'Props', 'C15.lean')), 1):
+        m = re.match(r'\s*(theorem|def|example)\s*([A-Za-z_][\w\.\']*)?', line)
+        if m:
+            decl.append((no, m.group(2) or 'example'))
+    names = []
+    for _, l in errs:
+        cur = [n for no, n in decl if no <= l]
+        if cur and cur[-1] not in names:
+            names.append(cur[-1])
+    if names:
+        proof['failed'].append(('theorems', 'no longer proved against the regenerated definitions: ' + ', '.join('C15.' + n for n in names)))
+
+
 def run(tier):
     out = C.Outcome('C15', tier)
     sc = Scratch(tier)
@@ -579,6 +623,7 @@ def _run(tier, out, sc):
     ok, msg, changed = C.regen(GEN)
     proof = C.prove('C15', leanchecker=(tier == 'thorough')) if ok else {'ok': False, 'failed': [('translator', msg)], 'obligations': 0,
                                                                             'discharged': 0, 'cmds': [], 'axioms': {}}
+    name_failed_theorems(proof)
     guard = arm64_origin_guard() if ok else None
     if guard:
         proof['ok'] = False
@@ -628,13 +673,16 @@ def _run(tier, out, sc):
     # ---- call-site lane
     sops = site_ops(tier, rng.fork('site'))
     sobs, flakes = run_site(bins, sops, sc)
-    sbad, derived, sstat = [], [], {'steps': 0, 'refused': 0, 'widened': 0}
+    sbad, derived, sstat = [], [], {'steps': 0, 'refused': 0, 'widened': 0, 'far': 0}
     for op, o in zip(sops, sobs):
-        why, der, st = site_oracle(op, o)
+        why, key, der, st = site_oracle(op, o)
         for k in sstat:
             sstat[k] += st[k]
         derived += [(op, e, im) for e, im in der]
-        if why:
+        if why and key:
+            n_f5 += 1
+            f5_example = (op, o, why)          # the executed instance is the better example
+        elif why:
             sbad.append((op, o, why))
     dmodel = None
     if derived:
@@ -697,6 +745,7 @@ def _run(tier, out, sc):
         'distribution': {'emit_ops': n_ops, 'observations_per_kind': per_kind, 'amd64.origin relative-form': rel, 'amd64.origin absolute-form': nor - rel,
                          'known_finding_F5_inputs': n_f5, 'site_ops': len(sops), 'site_real_patches_with_trampoline': sstat['steps'],
                          'site_refused_by_goom': sstat['refused'], 'site_relocated_head_longer_than_head': sstat['widened'],
+                         'site_placeholder_more_than_2GiB_from_origin': sstat['far'],
                          'site_derived_emit_lines': len(derived), 'site_crash_not_reproduced': flakes,
                          'i386_probe_native_32bit': [p['native'] for p in bins if p['tag'] == 'i386patch'][0],
                          'gen_modules_changed_this_run': changed},
@@ -726,8 +775,8 @@ def replay(body):
         if sops:
             sobs, flakes = run_site(bins, sops, sc)
             for op, o in zip(sops, sobs):
-                why, der, _ = site_oracle(op, o)
-                print(f'{op}\n  impl : ' + str(o).replace(' | ', '\n         | ') + f'\n  oracle: {why or "ok"}')
+                why, key, der, _ = site_oracle(op, o)
+                print(f'{op}\n  impl : ' + str(o).replace(' | ', '\n         | ') + f'\n  oracle: {why or "ok"}' + (f'   [known finding {key}]' if key else ''))
                 if der:
                     p = sc.path('derived.ops')
                     open(p, 'w').write('\n'.join(e for e, _ in der) + '\n')
